@@ -8,7 +8,7 @@ for p in selftest/mutants/*.patch; do
   if [ $# -gt 0 ] && ! [[ " $* " == *" $prop "* ]]; then continue; fi
   if ! git -C /repo apply --check "$PWD/$p" 2>/dev/null; then echo "SKIP $name (patch does not apply)"; fail=1; continue; fi
   git -C /repo apply "$PWD/$p"
-  out=$(./check "$prop" 2>&1); rc=$?
+  out=$(WKV_NO_EVIDENCE=1 ./check "$prop" 2>&1); rc=$?
   git -C /repo apply -R "$PWD/$p"
   if echo "$out" | grep -q "load_failure"; then echo "INVALID $name: mutant does not compile"; fail=1
   elif [ $rc -eq 1 ] && echo "$out" | grep -q "^VIOLATION property=$prop"; then
